@@ -1,14 +1,15 @@
 import J5V.Schema.PropSetModel
-import J5V.Schema.ReaderPaths
+import J5V.Schema.ReaderLinks
 /-!
 # Lemmas about the property-set checks (C18, codec side)
 -/
 namespace J5V.Schema.Reader
 open J5V.Go J5V.Schema
 
-/-- a schema that describes a field passes every check of the property-set layer -/
-theorem reflectField_ok (ds : DescSet) (f : FieldD) (s : RField) (h : describes ds f s = true) :
-    reflectField f s = .ok () := by
+/-- a schema that describes a field passes every check of the property-set layer (a list / map
+of `Any` excepted: open finding `any-in-collection`) -/
+theorem reflectField_ok (ds : DescSet) (f : FieldD) (s : RField) (h : describes ds f s = true)
+    (hany : anyInCollection s = false) : reflectField f s = .ok () := by
   have item : ∀ kind t i, describesItem ds kind t i = true → itemFactory i kind t = .ok () := by
     intro kind t i hi
     unfold itemFactory
@@ -52,21 +53,22 @@ theorem reflectField_ok (ds : DescSet) (f : FieldD) (s : RField) (h : describes 
     simp only [hc] at h
     cases s with
     | array i =>
-      simp only [Bool.and_eq_true, bne_iff_ne, ne_eq] at h
+      have hne : i ≠ .any := by intro hi; subst hi; simp [anyInCollection] at hany
       simp only [hc]
-      simp [item _ _ _ h.2, coll _ _ _ h.1 h.2, Outcome.bind]
+      simp [item _ _ _ h, coll _ _ _ hne h, Outcome.bind]
     | _ => cases h
   | map =>
     simp only [hc] at h
     cases s with
     | map i =>
+      have hne : i ≠ .any := by intro hi; subst hi; simp [anyInCollection] at hany
       simp only [hc]
       cases hmv : f.mapVal with
       | none => simp [hmv] at h
       | some x =>
         obtain ⟨vk, vt, vkey⟩ := x
-        simp only [hmv, Bool.and_eq_true, bne_iff_ne, ne_eq] at h
-        simp [item _ _ _ h.2, coll _ _ _ h.1 h.2, Outcome.bind]
+        simp only [hmv] at h
+        simp [item _ _ _ h, coll _ _ _ hne h, Outcome.bind]
     | _ => cases h
   | single =>
     simp only [hc] at h
@@ -91,5 +93,181 @@ theorem resolvePath_single (ds : DescSet) (m : Msg) (f : FieldD) (hf : f ∈ m.f
     refine ⟨g, rfl, List.mem_of_find?_eq_some hfind, ?_⟩
     have := List.find?_some hfind
     simpa using this
+
+
+
+/-! ## client properties: flatten chains resolve
+
+`ClientProperties()` of an object replaces each flattened field by the client properties of the
+field's object, with the field's number in front of their paths. On a settled registry of a
+linked set every such property still leads — through `newPropSet`'s walk, message by message — to
+a field its schema describes, or (the wrapper of an exposed oneof of a flattened message) to the
+message field whose message has that oneof. -/
+
+/-- with distinct field numbers `find?` by number finds the field itself -/
+theorem find_number (l : List FieldD) (hn : (l.map (·.number)).Nodup) (f : FieldD) (hf : f ∈ l) :
+    l.find? (fun g => g.number == f.number) = some f := by
+  induction l with
+  | nil => cases hf
+  | cons x xs ih =>
+    simp only [List.map_cons, List.nodup_cons] at hn
+    rcases List.mem_cons.mp hf with rfl | hmem
+    · simp
+    · have hne : x.number ≠ f.number := by
+        intro heq
+        apply hn.1
+        rw [heq]
+        exact List.mem_map.mpr ⟨f, hmem, rfl⟩
+      rw [List.find?_cons]
+      have : (x.number == f.number) = false := by simpa using hne
+      rw [this]
+      exact ih hn.2 hmem
+
+theorem resolvePath_one (ds : DescSet) (m : Msg) (hn : (m.fields.map (·.number)).Nodup) (f : FieldD)
+    (hf : f ∈ m.fields) : resolvePath ds m [f.number] = .ok (some f) := by
+  unfold resolvePath
+  rw [find_number m.fields hn f hf]
+
+/-- one step of the walk: through message field `f` of `m` into its message `m'` -/
+theorem resolvePath_step (ds : DescSet) (m : Msg) (hn : (m.fields.map (·.number)).Nodup) (f : FieldD)
+    (hf : f ∈ m.fields) (hk : f.kind = .message) (m' : Msg)
+    (hm' : ds.msg? (targetFull f.target) = some m') (n : Int) (rest : List Int) :
+    resolvePath ds m (f.number :: n :: rest) = resolvePath ds m' (n :: rest) := by
+  rw [resolvePath]
+  · simp [find_number m.fields hn f hf, hk, hm']
+  · intro h; cases h
+
+/-- where the wrapper property of an exposed oneof of message `mo` sits, seen from `m`: in `m`
+itself (`mo = m`, empty path), or behind the message field the path leads to -/
+def ExposedAt (ds : DescSet) (m : Msg) (path : List Int) (mo : Msg) : Prop :=
+  (path = [] ∧ mo = m) ∨
+  (∃ g, resolvePath ds m path = .ok (some g) ∧ g.kind = .message ∧ g.card = .single ∧
+    ds.msg? (targetFull g.target) = some mo)
+
+/-- a client property of a schema built from `m` is usable by `lib/j5reflect` -/
+def ClientOK (ds : DescSet) (m : Msg) (p : RProp) : Prop :=
+  (∃ g, resolvePath ds m p.path = .ok (some g) ∧ describes ds g p.schema = true) ∨
+  (∃ mo o, ExposedAt ds m p.path mo ∧ o ∈ mo.oneofs ∧ p.schema = .oneof ⟨mo.pkg, o.split⟩)
+
+/-- a client property of the flattened message, seen through the flattening field -/
+theorem ClientOK.lift (ds : DescSet) (m : Msg) (hn : (m.fields.map (·.number)).Nodup) (f : FieldD)
+    (hf : f ∈ m.fields) (hk : f.kind = .message) (hc : f.card = .single) (m' : Msg)
+    (hm' : ds.msg? (targetFull f.target) = some m') (p : RProp) (h : ClientOK ds m' p) :
+    ClientOK ds m (nestedClone [f.number] p) := by
+  rcases h with ⟨g, hg, hd⟩ | ⟨mo, o, hex, ho, hs⟩
+  · left
+    refine ⟨g, ?_, hd⟩
+    simp only [nestedClone, List.singleton_append]
+    cases hp : p.path with
+    | nil => rw [hp] at hg; simp [resolvePath] at hg
+    | cons n rest =>
+      rw [hp] at hg
+      rw [resolvePath_step ds m hn f hf hk m' hm']
+      exact hg
+  · right
+    refine ⟨mo, o, ?_, ho, hs⟩
+    simp only [nestedClone, List.singleton_append]
+    right
+    rcases hex with ⟨hp, hmo⟩ | ⟨g, hg, h1, h2, h3⟩
+    · subst hmo
+      rw [hp]
+      exact ⟨f, resolvePath_one ds m hn f hf, hk, hc, hm'⟩
+    · cases hp : p.path with
+      | nil => rw [hp] at hg; simp [resolvePath] at hg
+      | cons n rest =>
+        rw [hp] at hg
+        exact ⟨g, by rw [resolvePath_step ds m hn f hf hk m' hm']; exact hg, h1, h2, h3⟩
+
+theorem PropLink.clientOK (ds : DescSet) (hl : linked ds = true) (reg : Reg) (m : Msg) (hc : Canon ds m)
+    (p : RProp) (h : PropLink ds reg m p) : ClientOK ds m p := by
+  rcases h with ⟨f, hf, hp, hd, _⟩ | ⟨hp, o, ho, hs, _⟩
+  · left
+    exact ⟨f, by rw [hp]; exact resolvePath_one ds m (linked_numbers hl m hc.mem) f hf, hd⟩
+  · right
+    exact ⟨m, o, Or.inl ⟨hp, rfl⟩, ho, hs⟩
+
+/-- **`ClientProperties()` succeeds and every client property is usable** — for the properties
+`props` of an object schema built from message `m`, whatever is on the flattening stack -/
+theorem clientProps_ok (ds : DescSet) (hl : linked ds = true) (reg : Reg) (hs : Settled ds reg)
+    (fl : List Ref) (props : List RProp) :
+    ∀ m, Canon ds m → (∀ prop ∈ props, PropLink ds reg m prop) →
+      ∃ cps, clientProps reg fl props = .ok cps ∧ ∀ p ∈ cps, ClientOK ds m p := by
+  induction fl, props using clientProps.induct reg with
+  | case1 fl => intro m _ _; exact ⟨[], by simp [clientProps], by intro p hp; cases hp⟩
+  | case2 fl prop rest ih1 ih2 =>
+    intro m hc hprops
+    obtain ⟨cps2, hcps2, hok2⟩ := ih2 m hc (fun q hq => hprops q (List.mem_cons_of_mem _ hq))
+    have hplink := hprops prop (List.mem_cons_self ..)
+    have hself : ClientOK ds m prop := hplink.clientOK ds hl reg m hc prop
+    have hkeep : ∀ here : Outcome (List RProp), here = .ok [prop] →
+        ∃ cps, (here.bind fun a => (clientProps reg fl rest).map fun b => a ++ b) = .ok cps ∧
+          ∀ p ∈ cps, ClientOK ds m p := by
+      intro here hh
+      subst hh
+      refine ⟨prop :: cps2, by simp [Outcome.bind, hcps2, Outcome.map], ?_⟩
+      intro p hp
+      rcases List.mem_cons.mp hp with rfl | hp'
+      · exact hself
+      · exact hok2 p hp'
+    rw [clientProps]
+    split
+    · rename_i ref hsch
+      split
+      · exact hkeep _ rfl
+      · rename_i hst
+        -- descend into the flattened object
+        rcases hplink with ⟨f, hf, hpath, hd, hr⟩ | ⟨_, o, _, hso, _⟩
+        · rw [hsch] at hd hr
+          obtain ⟨hcard, hkind, m', hm', href, hw, hit⟩ := describes_object hd
+          obtain ⟨hfull, hcanon'⟩ := canon_of_find hm'
+          have hown := hr ref rfl
+          rw [hit, ← hfull] at hown
+          obtain ⟨e', p', k', en', am', ps', h1, h2, _, _, _, hprops', _⟩ :=
+            objRef_resolves ds hl reg hs ref m' hcanon' hw hown
+          split
+          · rename_i hnone; rw [h1] at hnone; cases hnone
+          · rename_i e2 hf2
+            have he2 : e2 = e' := by rw [h1] at hf2; cases hf2; rfl
+            subst he2
+            split
+            · rename_i p2 k2 en2 am2 ps2 hto2
+              rw [h2] at hto2
+              cases hto2
+              obtain ⟨cps1, hcps1, hok1⟩ := ih1 ref hst e2 hf2 ps' m' hcanon' hprops'
+              refine ⟨cps1.map (nestedClone prop.path) ++ cps2, by
+                simp [Outcome.bind, hcps1, hcps2, Outcome.map], ?_⟩
+              intro p hp
+              rcases List.mem_append.mp hp with hp1 | hp2
+              · obtain ⟨q, hq, rfl⟩ := List.mem_map.mp hp1
+                rw [hpath]
+                exact ClientOK.lift ds m (linked_numbers hl m hc.mem) f hf hkind hcard m' hm' q (hok1 q hq)
+              · exact hok2 p hp2
+            · rename_i r hno hto2
+              rw [h2] at hto2
+              cases hto2
+              exact absurd rfl (hno _ _ _ _ _)
+            · rename_i hto2
+              rw [h2] at hto2
+              cases hto2
+        · rw [hsch] at hso
+          cases hso
+    · exact hkeep _ rfl
+
+/-- `newPropSet`'s walk succeeds on usable client properties -/
+theorem resolveAll_ok (ds : DescSet) (m : Msg) (cps : List RProp) (h : ∀ p ∈ cps, ClientOK ds m p) :
+    resolveAll ds m cps = .ok () := by
+  induction cps with
+  | nil => rfl
+  | cons p ps ih =>
+    unfold resolveAll
+    have hp : ∃ r, resolvePath ds m p.path = .ok r := by
+      rcases h p (List.mem_cons_self ..) with ⟨g, hg, _⟩ | ⟨mo, o, hex, _, _⟩
+      · exact ⟨_, hg⟩
+      · rcases hex with ⟨hpe, _⟩ | ⟨g, hg, _⟩
+        · exact ⟨none, by rw [hpe]; rfl⟩
+        · exact ⟨_, hg⟩
+    obtain ⟨r, hr⟩ := hp
+    simp only [hr, Outcome.bind]
+    exact ih (fun q hq => h q (List.mem_cons_of_mem _ hq))
 
 end J5V.Schema.Reader
